@@ -126,7 +126,12 @@ def check(ctx, phi, edge, mask, step, case, tag, container=True):
         for cache in (True, False):
             try:
                 as_col = bool(ctx.rng.random() < .3)      # the same phase handed over as a single column
-                cyc = C.Cycles(phi[:, None].copy() if as_col else phi.copy(), phase_step=step, phase_edge=edge, use_cache=cache)
+                extra = {}
+                if ctx.rng.random() < .3:
+                    # the other documented constructor options: the quality flags do not depend on them
+                    extra = {'mode': gens.pick(ctx.rng, ['augmented', 'cycle']), 'compute_timings': bool(ctx.rng.random() < .5)}
+                    ctx.count('containers_with_mode:' + extra['mode'])
+                cyc = C.Cycles(phi[:, None].copy() if as_col else phi.copy(), phase_step=step, phase_edge=edge, use_cache=cache, **extra)
                 if as_col:
                     ctx.count('containers_from_column_input')
                 flags = np.asarray(cyc.metrics['is_good']).astype(int)
